@@ -20,8 +20,10 @@ META = {
 
 
 def jobs():
-    js = [Job("S1-received-blocks", "C09/c09.c", "c09_s1_received_blocks", UNITS, extra_src=EXTRA, unwind=8, timeout=1800, est_gb=4,
-              desc="one update_received_blocks step from an arbitrary well-formed table + check_all_blocks_in", bounds={"ranges": "0..3", "block": "< 2^20"})]
+    js = [Job("S1-received-blocks@used%d" % u, "C09/c09.c", "c09_s1_received_blocks", UNITS, extra_src=EXTRA, defines=["USED=%d" % u], unwind=8,
+              timeout=1800, est_gb=4, group="S1-received-blocks", witness=(u >= 2),
+              desc="one update_received_blocks step from an arbitrary well-formed table with %d ranges + check_all_blocks_in" % u,
+              bounds={"ranges": u, "block": "< 2^20"}) for u in range(0, 4)]
     for bl in range(0, 4):
         js.append(Job("L1-block-option@len%d" % bl, "C09/c09.c", "c09_l1_block_option", UNITS, extra_src=EXTRA, defines=["BL=%d" % bl], unwind=12,
                       group="L1-block-option", desc="coap_get_block_b on every %d-byte Block2 value" % bl, bounds={"length": bl}))
